@@ -434,6 +434,18 @@ def main(rec):
             rec.samples.append(rr["sample"])
         for v in rr["violations"]:
             rec.violation(v["mech"], v["detail"], {"lib": c["lib"]["name"]})
+    # upstream unit tests of the numpy-free configurations, extension built with ASan+UBSan
+    pc = [{"name": n} for n in buildfarm.PYTHON_TARGETS]
+    pres = pool.run_cases("vf.buildfarm", pc, func="python_corpus_job", timeout=1500)
+    for c, rr in zip(pc, pres):
+        if "stats" not in rr:
+            workloads.bad_run(rec, c, rr)
+            continue
+        if rr.get("unreachable"):
+            rec.unreach("upstream python test %s: %s" % (c["name"], rr["unreachable"]))
+        rec.count("upstream_python_tests_run", rr["stats"].get("python_tests_run", 0))
+        for v in rr["violations"]:
+            rec.violation("corpus:%s:%s" % (c["name"], v["mech"]), v["detail"], c)
     rec.distinct_override = sum(rec.counters.get(k, 0) for k in ("positive_calls", "negative_calls", "refcount_runs"))
     if rec.counters.get("recv_records", 0) == 0:
         rec.inconclusive = "no library call was observed"
